@@ -202,12 +202,53 @@ def exact_decimal(m, e):
     return s[:e] + "." + s[e:]
 
 
+def edge_text(r, ty):
+    """a value at an edge of the exponent range, where rounding / ERANGE change: the tininess threshold
+    2^emin*(1 - 2^-(p+1)), subnormal midpoints, the smallest normal number, the overflow threshold
+    2^emax*(2 - 2^-p) -- of binary64, or of binary32 for the float assignment; exact values as hex floats"""
+    if ty == "float" and r.chance(1, 2):
+        p, qmin, qmax = 24, -149, 104
+    else:
+        p, qmin, qmax = 53, -1074, 971
+    nud = r.choice([-3, -1, 0, 0, 1, 5])
+    w = r.below(6)
+    if w == 0:      # tiny after rounding or not
+        m, e = (((1 << (p + 1)) - 1) << 8) + nud, qmin - 10
+    elif w == 1:    # midpoint between two subnormal numbers (or 0 and the smallest one)
+        c = r.choice([0, 1, 2, 3, r.range(0, (1 << (p - 1)) - 1), (1 << (p - 1)) - 1, (1 << (p - 1)) - 2])
+        m, e = ((2 * c + 1) << 8) + nud, qmin - 9
+    elif w == 2:    # an exact subnormal number
+        m, e = r.choice([1, 2, 3, r.range(1, (1 << (p - 1)) - 1), (1 << (p - 1)) - 1]), qmin
+    elif w == 3:    # the smallest normal number
+        m, e = ((1 << (p - 1)) << 8) + nud, qmin - 8
+    elif w == 4:    # overflow threshold
+        m, e = (((1 << (p + 1)) - 1) << 8) + nud, qmax - 9
+    else:           # an inexact decimal deep in the subnormal range
+        digs = "".join(DIG[r.below(10)] for _ in range(r.choice([1, 3, 17, 25]))).lstrip("0") or "3"
+        ex = (r.range(-47, -37) if p == 24 else r.range(-326, -306)) - len(digs) + 1
+        return digs[0] + "." + digs[1:] + "e" + str(ex) if len(digs) > 1 else digs + "e" + str(ex)
+    # glibc < 2.41 (bug 30220) mis-rounds subnormal results whose exact value has exactly 54 significant
+    # bits; that is a libc defect outside this property, so such values are given two more bits
+    mm = m
+    while mm % 2 == 0:
+        mm //= 2
+    if mm.bit_length() == 54 and m.bit_length() + e <= -1022:
+        m, e = m * 4 + 1, e - 2
+    h = "%x" % m
+    frac = r.range(0, 3)
+    if frac and len(h) > frac:
+        h, e = h[:-frac] + "." + h[-frac:], e + 4 * frac
+    return r.choice(["0x", "0X"]) + mixcase(r, h) + r.choice(["p", "P"]) + str(e)
+
+
 def float_text(r, ty):
     """-> (text, (neg, m, e) of a double near the value or None)"""
     bits = 24 if ty == "float" else 53
     k = r.below(100)
     neg = r.chance(1, 3)
     sign = "-" if neg else r.choice(["", "", "+"])
+    if k < 5:
+        return sign + edge_text(r, ty), None
     if k < 30:
         # exactly representable, normal range
         m = r.range(1, (1 << r.range(1, bits)) - 1) | (1 if r.chance(1, 2) else 0)
@@ -454,8 +495,9 @@ def components(ctx):
                        classify=classify, ldflags=["-lm"]),
         vlib.Component("pf", "h_parsenum.c", SRCS, ["parsenum"], gen_pf, nontrivial=nontrivial_pn,
                        rule="float/double targets: exactly representable values written as hex-float / exact decimal / shifted exponent, arbitrary decimals "
-                            "(rounding), midpoints between adjacent doubles, inf/infinity/nan(...) spellings and prefixes, malformed mantissa/exponent forms, "
-                            "token soup; bounds = +-inf | fixed | value +- {0,1,2} ulp | bound-less form",
+                            "(rounding), midpoints between adjacent doubles, range edges of binary64 and binary32 (tininess threshold 2^emin(1-2^-(p+1)), "
+                            "subnormal midpoints, smallest normal, overflow threshold, each nudged), inf/infinity/nan(...) spellings and prefixes, "
+                            "malformed mantissa/exponent forms, token soup; bounds = +-inf | fixed | value +- {0,1,2} ulp | bound-less form",
                        classify=classify, ldflags=["-lm"]),
         vlib.Component("hs", "h_parsenum.c", SRCS, ["parsenum"], gen_hs,
                        nontrivial=lambda c: sum(1 for o in c if o.startswith("hs_parse") and len(o.split()[1]) >= 4) >= 2,
@@ -474,6 +516,8 @@ def check(ctx):
                      "for signed targets the caller's bounds lie within the target type (left to the caller by the interface); "
                      "outside that contract the answer is compared at L2 only",
                      "libc strtoimax/strtoumax/strtod/isspace behave as ISO C 2011 says in the C locale (modelled; compared on every run)",
-                     "floating point: accept/reject and range logic are proved over the strtod model; correct rounding of the model is tied by L1 only"],
+                     "floating point: the strtod model is proved to be correctly rounding (IEEE 754 roundTiesToEven, gradual underflow, ERANGE on overflow "
+                     "or tiny-after-rounding-and-inexact) against Spec/Ieee.lean; that the real libc's strtod is correctly rounding is observed at L1 "
+                     "(glibc < 2.41 is not, for subnormal results with exactly 54 significant bits: glibc bug 30220; generators avoid those)"],
         trusted=["pmodel (compiled Lean model)", "harness/h_parsenum.c", "tools/extractors/c16.py",
                  "libc strto*/strtod/asprintf (modelled)", "gcc ASan/UBSan"])
